@@ -269,6 +269,25 @@ def write_evidence(pid, tier, results, wall, level='model_checking', extra=None,
         'assumptions': assumptions, 'wall_s': round(wall, 2), 'violations': len(viol),
     }
     path = os.path.join(evdir, pid + '.json')
+    # one evidence file per property: a run of one tier keeps a compact record of the last run of the OTHER tier (measured by
+    # that run, with its source digest and time), so that a quick run does not erase the trace of the last thorough one
+    try:
+        with open(path) as f:
+            old = json.load(f)
+        oc = old.get('coverage', {})
+        if old.get('tier') != tier:
+            cov['other_tier_last_run'] = {
+                'tier': old.get('tier'), 'finished_utc': oc.get('finished_utc'), 'wall_s': old.get('wall_s'), 'violations': old.get('violations'),
+                'obligations': oc.get('obligations'), 'discharged': oc.get('discharged'), 'decided': oc.get('decided'),
+                'inconclusive': [x.get('obligation') for x in oc.get('inconclusive', [])][:40],
+                'known_findings': sorted({x.get('finding') for x in oc.get('known_findings', []) if x.get('finding')}),
+                'states': oc.get('states'), 'transitions': oc.get('transitions'), 'queries': oc.get('queries'), 'solver_time_s': oc.get('solver_time_s'),
+                'source_digest': oc.get('source_digest'), 'partial_run_filter': oc.get('partial_run_filter')}
+        elif oc.get('other_tier_last_run'):
+            cov['other_tier_last_run'] = oc['other_tier_last_run']
+    except Exception:
+        pass
+    cov['finished_utc'] = time.strftime('%Y-%m-%dT%H:%M:%SZ', time.gmtime())
     tmp = path + '.tmp'
     with open(tmp, 'w') as f:
         json.dump(ev, f, indent=1, default=str)
